@@ -65,7 +65,10 @@ func init() {
 		chunks := fs.String("chunks", "whole", "chunkings")
 		stride := fs.Int("stride", 1, "use every stride-th row")
 		scalesFlag := fs.String("scales", "0,200,66000", "payload sizes of data frames: 0 = the letters' own 5 bytes; 200 = 16-bit length; 66000 = 64-bit length")
+		recvTrace := fs.String("recv-trace", "", "output NDJSON of the hook events of every k-th connection, for TraceRecv")
+		traceEvery := fs.Int("trace-every", 50, "k")
 		fs.Parse(args)
+		setupRecvTrace(*recvTrace, *traceEvery)
 		var scales []int
 		for _, x := range splitComma(*scalesFlag) {
 			var n int
@@ -177,7 +180,7 @@ func init() {
 												id := caseID{Names: row.Names, V: v, Seed: *seed, Cut: cut, CutKind: where, EndErr: endErr != nil}
 												cs, exp, endErr, delivered := cs, exp, endErr, delivered
 												jobs <- func(rng *rand.Rand) {
-													rc := recvCfg{v: v, stream: cs.bytes, cutAt: id.Cut, endErr: endErr}
+													rc := recvCfg{v: v, sent: cs.frames, stream: cs.bytes, cutAt: id.Cut, endErr: endErr}
 													if v.Scale > 0 {
 														unlimited := int64(-1)
 														rc.limit = &unlimited
@@ -212,6 +215,9 @@ func init() {
 		close(jobs)
 		<-done
 		rep.Evaluations, rep.Rows, rep.Distinct = evals, rows, int64(len(classes))
+		if err := finishRecvTrace(*recvTrace, rep); err != nil {
+			return err
+		}
 		rep.print()
 		return nil
 	}
